@@ -80,6 +80,8 @@ BOUNDS = {
         "arm64-elf": "PIE/non-PIE x use subsets of size <= 2 and the full set x 3 retarget sets (+ swapped style x {A->B})",
         "x64-pe": "all 128 subsets of the 7 non-CFI uses x {A->B} + blockwise subsets x the two other retarget sets",
         "invalid": "8 refused request shapes x 9 (A,B) kinds x PIE/non-PIE; control flow into data inside every product",
+        "process-history": "every ordered pair of the 5 module kinds (x64 ELF PIE/non-PIE, ARM64 ELF PIE/non-PIE, x64 PE) rewritten "
+        "one after the other in one fresh interpreter (int->ext and ext->int, every use place): 25 histories",
     },
     "thorough": {
         "x64-elf": "36 kinds x PIE/non-PIE x all 512 subsets x 3 retarget sets x 2 attribute styles",
@@ -89,6 +91,7 @@ BOUNDS = {
         "x64-elf-mods2": "PIE, all pairs of modifications at two different places, byte-level uses all on / all off",
         "x64-pe-mods": "as quick x64-elf-mods",
         "invalid": "as quick",
+        "process-history": "every sequence of 2 or 3 module kinds: 150 histories",
     },
 }
 CAP_S = {"quick": 240, "thorough": 1800}
@@ -1092,6 +1095,9 @@ def tasks(tier):
     for x in t:
         by_group.setdefault(x["g"], []).append(x)
     order = [{"g": "invalid", "part": "invalid"}]
+    # process histories: every sequence of module kinds rewritten one after the other in one fresh interpreter
+    for first in range(len(HIST_KINDS)):
+        order.append({"g": "process-history", "part": "history", "first": first})
     for row in itertools.zip_longest(*by_group.values()):
         order.extend(x for x in row if x is not None)
     for x in order:
@@ -1103,9 +1109,62 @@ def task_group(task):
     return task["g"]
 
 
+HIST_KINDS = (("x64-elf", 0), ("x64-elf", 1), ("arm64-elf", 0), ("arm64-elf", 1), ("x64-pe", 0))
+
+HIST_RUNNER = r"""
+import sys, json
+sys.path.insert(0, %(root)r)
+from vf.props import c18
+print(json.dumps(c18.run_history_inproc(json.loads(%(hist)r))))
+"""
+
+
+def hist_step_cases(abi, pie):
+    allowed = 511 if abi != "x64-pe" else (511 & ~CFI_MASK)
+    for kinds in ("cpc", "pcc"):  # internal -> external and external -> internal, every use place present
+        yield {"abi": abi, "pie": pie, "kinds": kinds, "uses": allowed, "style": 0, "rset": "ab"}
+
+
+def run_history_inproc(hist):
+    """in this interpreter: rewrite one module kind after the other; the discrepancies of every step"""
+    out = []
+    for step, (abi, pie) in enumerate(hist):
+        for case in hist_step_cases(abi, pie):
+            diffs, outcome, _ = run_case(case)
+            for d in diffs:
+                d["r_step"] = step
+                d["r_module"] = "%s/%s" % (abi, "pie" if pie else "nopie")
+            out.append([diffs, outcome])
+    return out
+
+
+def run_history(hist):
+    """fresh interpreter per history, so that nothing an earlier case left in the process (a cache on a shared ABI
+    object, a module-level table) is inherited: the history *is* the state"""
+    import json
+    import os
+    import subprocess
+    import sys
+
+    root = os.path.dirname(os.path.dirname(os.path.dirname(os.path.abspath(__file__))))
+    code = HIST_RUNNER % {"root": root, "hist": json.dumps(hist)}
+    p = subprocess.run([sys.executable, "-c", code], capture_output=True, text=True, env=dict(os.environ), timeout=600)
+    if p.returncode != 0:
+        raise RuntimeError("history sub-process failed: " + p.stderr[-400:])
+    rows = json.loads(p.stdout.strip().splitlines()[-1])
+    diffs = [d for r in rows for d in r[0]]
+    return diffs, "history:" + "|".join(sorted({r[1].split(":")[0] for r in rows}))
+
+
 def cases_of(task):
     tier = task["tier"]
     part = task["part"]
+    if part == "history":
+        depth = 3 if tier == "thorough" else 2
+        for n in range(2, depth + 1):
+            for rest in itertools.product(range(len(HIST_KINDS)), repeat=n - 1):
+                yield {"history": [list(HIST_KINDS[i]) for i in (task["first"],) + rest]}
+        return
     if part == "invalid":
         selfcheck_tables()
         for kinds in ALL_KINDS:
@@ -1194,6 +1253,9 @@ def run_task(task):
         if "invalid" in case:
             diffs, outcome = run_invalid(case)
             nontrivial = True
+        elif "history" in case:
+            diffs, outcome = run_history(case["history"])
+            nontrivial = True
         else:
             diffs, outcome, nontrivial = run_case(case, cache)
         key = sorted(case.items(), key=lambda kv: kv[0])
@@ -1217,4 +1279,6 @@ def run_task(task):
 def replay(case):
     if "invalid" in case:
         return run_invalid(case)[0]
+    if "history" in case:
+        return run_history(case["history"])[0]
     return run_case(case)[0]
